@@ -498,6 +498,98 @@ def impl_mut(c, chk, stage_items, stage_meta, full_items, full_meta):
     return True
 
 
+# ------------------------------------------------------------------ transforms and axes inside energy-units contexts
+UNITS = ["1/cm", "eV", "meV", "THz", "Ha", "J"]
+
+
+def gen_units(r, k, cls=None, routine=None, create=None):
+    cls = cls or r.choice(["freq", "freq", "time"])
+    atype = r.choice(["complete", "upper-half"])
+    n = r.randint(2, 16)
+    if cls == "freq" and atype == "upper-half" and n % 2:
+        n += 1
+    data = [[r.randint(-6, 6), r.randint(-6, 6)] for _ in range(n)]
+    return {"kind": "units", "chain": "U", "units": r.choice(UNITS), "cls": cls, "atype": atype, "length": n, "start": gen_start(r),
+            "step": abs(gen_step(r)), "cstart": r.choice([0.0, 0.7, -1.25]), "data": data,
+            "routine": routine or r.choice(["ft", "ift"]), "create": create or r.choice(["outside", "inside"])}
+
+
+def impl_units(c, chk):
+    """the same transform / axis round trip with no units context and inside energy_units(u); everything is compared in
+    internal units (axis attributes are read outside every context)"""
+    import numpy
+    import quantarhei as qr
+    u, cls = c["units"], c["cls"]
+    tag = "%s:%s:%s:%s:%s" % (cls, c["atype"], c["routine"], c["create"], "in_units")
+    y = numpy.array([complex(a, b) for a, b in c["data"]])
+
+    def xf(f):
+        return f.get_Fourier_transform() if c["routine"] == "ft" else f.get_inverse_Fourier_transform()
+
+    def xb(g):
+        return g.get_inverse_Fourier_transform() if c["routine"] == "ft" else g.get_Fourier_transform()
+
+    def conj_axes(ax):
+        a1 = ax.get_FrequencyAxis() if cls == "time" else ax.get_TimeAxis()
+        a2 = a1.get_TimeAxis() if cls == "time" else a1.get_FrequencyAxis()
+        return a1, a2
+    # reference: no context
+    ax0 = make_axis(cls, c)
+    g0 = xf(qr.DFunction(ax0, y.copy()))
+    a10, a20 = conj_axes(ax0)
+    ref = {"data": numpy.asarray(g0.data, dtype=complex), "axis": axis_tuple(g0.axis), "a1": axis_tuple(a10), "a2": axis_tuple(a20),
+           "in": axis_tuple(ax0)}
+    # inside the context
+    if c["create"] == "outside":
+        ax = make_axis(cls, c)
+    with qr.energy_units(u):
+        if c["create"] == "inside":
+            if cls == "freq":        # start and step of a frequency axis are given in the current units
+                ax = qr.FrequencyAxis(qr.convert(c["start"], "int", u), c["length"], qr.convert(c["step"], "int", u),
+                                      atype=c["atype"], time_start=c["cstart"])
+            else:
+                ax = make_axis(cls, c)
+        f = qr.DFunction(ax, y.copy())
+        g = xf(f)
+        back = xb(g)
+        a1, a2 = conj_axes(ax)
+    got = {"data": numpy.asarray(g.data, dtype=complex), "axis": axis_tuple(g.axis), "a1": axis_tuple(a1), "a2": axis_tuple(a2),
+           "in": axis_tuple(ax)}
+    tol = 1e-10
+    if not same_axis(ref["in"], got["in"], tol):
+        chk.violation("units:axis_created:" + tag, "a %s axis created inside energy_units(%r) from converted values is %r, outside %r"
+                      % (cls, u, got["in"], ref["in"]), "monitor", c)
+        return False
+    scale = max(1.0, float(numpy.max(numpy.abs(ref["data"]))))
+    name = "get_Fourier_transform" if c["routine"] == "ft" else "get_inverse_Fourier_transform"
+    if got["data"].shape != ref["data"].shape or float(numpy.max(numpy.abs(got["data"] - ref["data"]))) > tol * scale:
+        err = float(numpy.max(numpy.abs(got["data"] - ref["data"]))) if got["data"].shape == ref["data"].shape else float("inf")
+        chk.violation("units:values:" + tag, "%s of a function on a %s %s axis inside energy_units(%r) differs by %g (relative %g) from the "
+                      "same call with no units context" % (name, c["atype"], cls, u, err, err / scale), "monitor", c)
+    for key, what in (("axis", "axis of the transform"), ("a1", "conjugate axis"), ("a2", "axis mapped back")):
+        if not same_axis(ref[key], got[key], tol):
+            chk.violation("units:%s:%s" % (key, tag), "%s obtained inside energy_units(%r) is %r (internal units), with no context %r"
+                          % (what, u, got[key], ref[key]), "monitor", c)
+    claimed = c["atype"] == "complete" or (cls == "time" and c["routine"] == "ft")
+    bd = numpy.asarray(back.data, dtype=complex)
+    if claimed and (bd.shape != y.shape or float(numpy.max(numpy.abs(bd - y))) > 1e-10 * max(1.0, float(numpy.max(numpy.abs(y))))):
+        err = float(numpy.max(numpy.abs(bd - y))) if bd.shape == y.shape else float("inf")
+        chk.violation("units:roundtrip:" + tag, "inside energy_units(%r), %s followed by its inverse changes the values by %g (%d points, %s %s axis)"
+                      % (u, name, err, len(y), c["atype"], cls), "monitor", c)
+    return True
+
+
+def units_corpus():
+    out = []
+    for cls in ("freq", "time"):
+        for routine in ("ft", "ift"):
+            for create in ("outside", "inside"):
+                for atype, n in (("complete", 5), ("upper-half", 4)):
+                    out.append({"kind": "units", "chain": "U", "units": "1/cm", "cls": cls, "atype": atype, "length": n, "start": 0.25, "step": 0.5,
+                                "cstart": 0.7, "data": [[1, 2], [0, -1], [3, 0], [2, 2], [-1, 1]][:n], "routine": routine, "create": create})
+    return out
+
+
 # ------------------------------------------------------------------ run
 def run(chk, cases):
     import numpy
@@ -526,6 +618,11 @@ def run(chk, cases):
                 ax_items[c["dir"]].append("(%s, %s, %s, %s)" % (cm.qlit(tp), axlit(t0), oaxlit(t1), oaxlit(t2)))
                 ax_meta[c["dir"]].append(c)
                 chk.case(c, c["length"] >= 2, sample={"case": c, "conjugate": t1, "back": t2} if c["length"] > 2 else None)
+            elif kind == "units":
+                chk.count("units:%s:%s:%s:%s:%s" % (c["units"], c["cls"], c["atype"], c["routine"], c["create"]))
+                ok = impl_units(c, chk)
+                chk.case(c, ok, sample={"units": c["units"], "cls": c["cls"], "atype": c["atype"], "routine": c["routine"], "create": c["create"],
+                                        "length": c["length"]})
             elif kind == "mut":
                 chk.count("mut:%s:%s:%s" % (c["atype"], c["dtype"], "+".join(sorted(set(o[0] for o in c["ops"])) + (["window"] if c.get("window") else []))))
                 ok = impl_mut(c, chk, stage_items, stage_meta, full_items, full_meta)
@@ -646,7 +743,10 @@ def main():
                 "function, B: inverse FT then FT, C: the same starting on a frequency axis), Gaussian-integer data (general, real, "
                 "Hermitian-extendable, single spike); functions modified after construction (built from real / integer / complex values, then "
                 "apply_to_data, data assignment, in-place arithmetic, element assignment, real or complex window) on upper-half and complete "
-                "axes, compared with the model, the direct Fourier sum and a function constructed directly from the final values. Non-trivial: length >= 2 (axes), data not identically zero (transforms); "
+                "axes, compared with the model, the direct Fourier sum and a function constructed directly from the final values; transforms (both routines, functions on "
+                "time and on frequency axes, both types) and axis round trips inside energy_units(u), u in 1/cm eV meV THz Ha J, axis created outside the "
+                "context or inside it from converted values, compared in internal units with the same calls made with no context (1e-10), plus the round "
+                "trip inside the context. Non-trivial: length >= 2 (axes), data not identically zero (transforms); "
                 "distinct by canonical input")
     chk.assumptions = [
         "numpy.fft.fft / numpy.fft.ifft compute the defining sums (hypotheses fft_spec / ifft_spec of the theorems): monitored on "
@@ -658,7 +758,18 @@ def main():
         "inverse transform followed by transform on an UPPER-HALF time axis (chain B) returns twice the values (factor 2.0 in "
         "get_inverse_Fourier_transform); the property only claims transform followed by inverse transform, so only the stage "
         "correspondence is checked there"]
+    chk.assumptions.append(
+        "static tie: TimeAxis.get_FrequencyAxis and FrequencyAxis.get_TimeAxis are translated whole (typed interpreter: Python ints as nat - "
+        "only + * // % int(a/b) len() of lengths, no subtraction; floats as an abstract field with 2 pi abstract; numpy.fft.fftfreq / fftshift "
+        "as array combinators whose every access may raise) and DFunction.get_Fourier_transform / get_inverse_Fourier_transform are matched "
+        "statement by statement against templates whose holes carry the array expressions, the Hermitian completion and the cuts "
+        "(harness/translate_c13.py, trusted to read the ast faithfully); numpy.fft.fftfreq(n, d)[k] = (k if k < (n-1)//2+1 else k-n)/(n d), "
+        "fftshift = roll by n//2, slice assignment with fitting lengths and `with energy_units('int')` = internal units are the assumed "
+        "meanings of the library calls; int(n/2) = n//2 for n < 2**53; the window product y*winfce.data and len(y) = axis.length are outside "
+        "the generated definitions (the differential part feeds the model the windowed values)")
     chk.prove()
+    import translate
+    translate.static_tie(cm, chk, PID, cm.REPO)      # second, static tie: model regenerated from the current source
     if args.replay:
         rep = json.load(open(args.replay))
         cases = [rep["input"]] if isinstance(rep.get("input"), dict) and "kind" in rep["input"] else []
@@ -675,6 +786,8 @@ def main():
         cases += [gen_axis(r, k) for k in range(na)] + [gen_ft(r, k) for k in range(nf)]
         r2 = cm.rng(PID + "/modified")
         cases += mut_corpus() + [gen_mut(r2, k) for k in range(120 if args.tier == "quick" else 1200)]
+        r3 = cm.rng(PID + "/units")
+        cases += units_corpus() + [gen_units(r3, k) for k in range(150 if args.tier == "quick" else 1500)]
     run(chk, cases)
     chk.finish()
 
